@@ -23,7 +23,9 @@ F = {
    entries=[("C01", "missing", "cfg x=1 | T0: spawn 1; st 0 1 rlx; ld 0 rlx; join 1 | T1: ld 0 rlx; st 0 2 rlx",
              "ok 0:0=- 0:1=- 0:2=v:2 0:3=- 1:0=v:1 1:1=-"),
             ("C02", "missing", "cfg x=1 | T0: spawn 1; st 0 1 rlx; ld 0 rlx; join 1 | T1: ld 0 rlx; st 0 2 rlx",
-             "ok 0:0=- 0:1=- 0:2=v:2 0:3=- 1:0=v:1 1:1=-", "rc11-strong")]),
+             "ok 0:0=- 0:1=- 0:2=v:2 0:3=- 1:0=v:1 1:1=-", "rc11-strong"),
+            ("C15", "bound-not-subset", "cfg x=1 | T0: spawn 1; ld 0 rlx; st 0 1 rlx; join 1; ld 0 rlx | T1: ld 0 rlx; st 0 10 rlx",
+             "ok 0:0=- 0:1=v:10 0:2=- 0:3=- 0:4=v:1 1:0=v:0 1:1=-")]),
  "F2": dict(cls="fence-acquire-over-sync",
    what="fence(Acquire) acquires from every store seen by a thread that happens-before the fencing thread, not only from stores the fencing thread read: an RC11-allowed outcome is never explored (rt/atomic.rs fence_acq, FirstSeen::is_seen_by_current)",
    entries=[("C02", "missing", "cfg x=3 | T0: spawn 1; spawn 2; st 1 1 rlx; st 0 1 rel; join 1; join 2 | T1: ld 0 rlx; st 2 1 rel | T2: ld 2 acq; fence acq; ld 1 rlx",
